@@ -16,6 +16,10 @@
 (*             "logical" = flattened in index order (wn-major)   -- the specification         *)
 (*             "memory"  = flattened in memory order             -- expected counterexample   *)
 (*                                                                                           *)
+(* The holders cache_* (object served by OpacityCache for cross-sections, by KTableCache for k-tables, *)
+(* found by discover()) receive the interpolation mode through the routes of ModeRoute.tla: the       *)
+(* binding crosses every cache holder with every exported route.                                      *)
+(*                                                                                           *)
 (* Invariants (hold for every order): OffsetBijective (a view addresses every element of the  *)
 (* block exactly once), ViewFaithful (reading index idx through the view gives the logical    *)
 (* element), PlaneHandedLogical (element k of the handed spectrum is the value at             *)
@@ -87,10 +91,10 @@ PlaneHandedLogical == Done =>
 \* ------------------------------------------------------------------ storage classes for the binding
 \* holders of a cross-section table / of a k-table, the orders and element types each of them can hold:
 \* HDF5 datasets are C-ordered on disk; numpy pickles keep C or Fortran order (any other view is pickled as C);
-\* an array handed directly keeps whatever strides it has.
+\* an array handed directly keeps whatever strides it has; an Exo-Transmit text table (decimal, m^2) is parsed into a C block.
 HoldersOf(layout) == IF layout = "xsec"
-                     THEN {"array", "pickle", "hdf5_stream", "hdf5_memory", "cache_pickle", "cache_hdf5"}
-                     ELSE {"array", "pickle", "hdf5_stream", "hdf5_memory"}
+                     THEN {"array", "pickle", "hdf5_stream", "hdf5_memory", "cache_pickle", "cache_hdf5", "cache_exotransmit"}
+                     ELSE {"array", "pickle", "hdf5_stream", "hdf5_memory", "cache_pickle", "cache_hdf5"}   \* cache_*: served by KTableCache
 OrdersOf(holder) == IF holder = "array" THEN Orders
                     ELSE IF holder = "pickle" THEN Orders \cap {Identity, Reversed}
                     ELSE {Identity}
